@@ -97,7 +97,52 @@ def rules(t):
     for i_ in idx:
         if "(P2(sequence) Rem 256)" not in i_: r.bad("slot-read", None, f"already_received reads another slot than sequence % 256: {i_[:80]}")
     out.append(r)
+    # window membership: already_received(seq) is true exactly for `seq + N <= most_recent` (too old) or `slot[seq % N] >= seq` (seen), with an
+    # EMPTY slot meaning "not seen". Every value the function returns is justified by one of these tests on the right operands.
+    r = RuleResult("C04.i", "replay window membership: `true` only behind `seq + 256 <= most_recent` or `slot[seq % 256] >= seq`; `false` only behind an EMPTY slot or `slot < seq`", floor=2)
+    ar = t.fn("ReplayProtection::already_received")
+    def is_slot(x): return "received_packet[(P2(sequence) Rem 256)]" in fmt(x)
+    def is_seq(x): return fmt(strip(x)) == "P2(sequence)"
+    def is_recent(x): return fmt(strip(x)).endswith("most_recent_sequence")
+    def is_old(x): return "P2(sequence)" in fmt(x) and "256" in fmt(x) and ("saturating_add" in fmt(x) or "AddWithOverflow" in fmt(x) or "checked_add" in fmt(x))
+    def classify(op, a, b):
+        """meaning of `a op b` being TRUE: 'old' / 'seen' / 'not-old' / 'not-seen' / 'empty' / 'not-empty' / None"""
+        for (x, y, o) in ((a, b, op), (b, a, MIRROR[op])):
+            if is_old(x) and is_recent(y): return {"Le": "old", "Gt": "not-old"}.get(o)
+            if is_slot(x) and is_seq(y): return {"Ge": "seen", "Lt": "not-seen"}.get(o)
+            if is_slot(x) and const_eval(y) == (1 << 64) - 1: return {"Eq": "empty", "Ne": "not-empty"}.get(o)
+        return None
+    NEG = {"old": "not-old", "not-old": "old", "seen": "not-seen", "not-seen": "seen", "empty": "not-empty", "not-empty": "empty"}
+    facts_edges = []
+    for br in t.branches(ar):
+        if br["kind"] == "bool" and br["cond"][0] == "cmp":
+            m = classify(br["cond"][1], br["cond"][2], br["cond"][3])
+            r.site(Site(ar, br["bb"], 0, ar.blocks[br["bb"]]["term"]), f"{m}: {fmt(br['raw'])[:70]}")
+            if m: facts_edges += [(br["t_edge"], m), (br["f_edge"], NEG[m])]
+            else: r.bad(f"window-test|{br['cond'][1]}|{fmt(br['cond'][2])[-30:]}|{fmt(br['cond'][3])[-30:]}", Site(ar, br["bb"], 0, ar.blocks[br["bb"]]["term"]), f"unrecognised window test {fmt(br['raw'])[:90]}: membership must be decided by `seq + 256 <= most_recent`, `slot == EMPTY`, `slot >= seq` only")
+    def known_at(bb): return {m for e, m in facts_edges if t.edge_dominates(ar, e, bb)}
+    for b in ar.blocks:
+        if b["i"] not in ar.reach: continue
+        for k, st in enumerate(b["stmts"]):
+            if st["k"] == "assign" and st["place"]["local"] == 0 and not st["place"]["proj"]:
+                o = ar._origin_of_def(st, 0); site = Site(ar, b["i"], k, st); kn = known_at(b["i"])
+                neg = False
+                while isinstance(o, tuple) and o[0] == "un" and o[1] == "Not": neg = not neg; o = o[2]
+                if isinstance(o, tuple) and o[0] == "const":
+                    val = bool(o[1]) != neg
+                    if val and not ({"old", "seen"} & kn): r.bad("true-unjustified", site, f"already_received returns true without `seq + 256 <= most_recent` or `slot[seq % 256] >= seq` having been established (known here: {sorted(kn)}): genuine packets inside the window are rejected")
+                    if not val and not ({"empty", "not-seen"} & kn): r.bad("false-unjustified", site, f"already_received returns false without an EMPTY slot or `slot < seq` having been established (known: {sorted(kn)}): a replayed packet can be accepted")
+                    if not val and "not-old" not in kn: r.bad("false-old", site, "already_received can return false for a sequence more than 256 behind the newest one")
+                elif isinstance(o, tuple) and o[0] == "bin" and o[1] in MIRROR:
+                    m = classify(o[1], o[2], o[3])
+                    if neg and m: m = NEG[m]
+                    if m not in ("seen", "old"): r.bad("expr-unjustified", site, f"already_received returns the value of {fmt(o)[:80]}, which is not one of the window tests")
+                    elif m == "seen" and not ({"not-empty"} & kn or True): pass
+                else:
+                    r.bad("ret-shape", site, f"already_received returns {fmt(o)[:60]}: not a window test")
+    out.append(r)
     r, d = obl_rule("C04.f", "OBL: replay window arithmetic cannot overflow or index out of range", "netcode", floor=4, select=lambda s_: "replay_protection" in s_["fn"])
     out.append(r)
     out.append(shared.aad_rule(t, "C04.e", "packet"))
+    out.append(shared.aead_open_rule(t, "C04.h"))
     return out
